@@ -91,7 +91,8 @@ class Sched(object):
       r = self._runnable()
       if r:
         break
-      dl = [t for t in self.threads if t.started and not t.finished and t.deadline is not None]
+      # (deadlines are read once: a thread that is leaving its wait clears its own deadline)
+      dl = [(d, t.tid, t) for t in self.threads for d in [t.deadline] if t.started and not t.finished and d is not None]
       if not dl:
         names = ', '.join(t.name for t in self.threads if t.started and not t.finished)
         self.deadlock = names
@@ -102,8 +103,8 @@ class Sched(object):
             t.wake = None
             t.gate.release()
         raise self.failed
-      t = min(dl, key=lambda t: (t.deadline, t.tid))
-      self.now = max(self.now, t.deadline)
+      d, _, t = min(dl, key=lambda x: (x[0], x[1]))
+      self.now = max(self.now, d)
       t.timed_out = True
       t.wake = None
       t.deadline = None
@@ -113,7 +114,7 @@ class Sched(object):
                t.wait_dur is not None and t.wait_dur <= maxdur and t not in r]
       if cands and rng.random() < prob:
         t = cands[rng.randrange(len(cands))]
-        self.now = max(self.now, t.deadline)
+        self.now = max(self.now, t.deadline if t.deadline is not None else self.now)
         t.timed_out = True
         t.wake = None
         t.deadline = None
